@@ -38,7 +38,7 @@ func init() {
 }
 
 func c07Input(r *gen.R, minRank int) *ref.T {
-	dt := gen.All14[r.Intn(len(gen.All14))]
+	dt := gen.Data13[r.Intn(len(gen.Data13))]
 	if r.Chance(0.5) {
 		dt = r.PickDT(ref.F32, ref.F32, ref.I64, ref.F64, ref.Bool)
 	}
@@ -178,7 +178,7 @@ func genSqueeze(r *gen.R, validOnly bool) (mon.OpReq, Expect, bool) {
 	if n > 120 {
 		return mon.OpReq{}, Expect{}, false
 	}
-	dt := gen.All14[r.Intn(len(gen.All14))]
+	dt := gen.Data13[r.Intn(len(gen.Data13))]
 	x := r.Tensor(dt, shape, gen.FillUnique, 0)
 	req := mon.OpReq{Op: "Squeeze", Inputs: []*ref.T{x}}
 	if r.Chance(0.25) {
@@ -274,6 +274,9 @@ func genShape(r *gen.R) (mon.OpReq, Expect, bool) {
 }
 
 func c07Run(c *Ctx) {
+	if c.Idx == 0 {
+		c07StringProbe(c)
+	}
 	var req mon.OpReq
 	var exp Expect
 	ok := false
